@@ -354,13 +354,28 @@ theorem cache_key_function {ρ κ β : Type} [DecidableEq κ] (key : ρ → κ) 
 
 /-- What `WeightCompressionConfig` (with the IFM bit depth, `fixed: property=C08 PENDING-2`) still leaves
     out: the accelerator — constant while a cache lives, since `compiler_driver` now empties the cache
-    (`PENDING-4`) —, the transpose-convolution flip, the depth offsets beyond their `hash(str(..))`, the
+    (`PENDING-4`) —, the depth offsets beyond their `hash(str(..))`, the
     block depth beyond its clamp (harmless: every core's share still covers its channels), and the data
     behind the two value ids (the ids are per tensor; the one value-derived id now includes the kernel
-    shape, `PENDING-3`). -/
-theorem cache_key_omits (r : Req) (acc : Nat) (flip : Bool) (offs : List Nat) (bd wdata sdata : Nat) :
-    wccKey { r with accelerator := acc, opFlip := flip, depthOffsets := offs, blockDepth := bd,
+    shape, `PENDING-3`; graph rewrites that re-lay a filter in place must refresh the id themselves:
+    `fixup_strided_conv` does, `fixup_dilation_gt2` does not — finding `dilated-kernel-keeps-value-id`). -/
+theorem cache_key_omits (r : Req) (acc : Nat) (offs : List Nat) (bd wdata sdata : Nat) :
+    wccKey { r with accelerator := acc, depthOffsets := offs, blockDepth := bd,
                     weightData := wdata, scaleData := sdata } = wccKey r := rfl
+
+/-- The transpose-convolution flip (the kernel is encoded reversed in H and W): whether the key of the tree
+    under test has a field for it is read from the generated field list (`keyHasFlip`).  With the field, equal
+    keys imply equal flips; without it (the unchanged tree: finding `cache-key-omits-transpose-conv-flip`,
+    repair `/verif_patches/C08-21`) the key is blind to it. -/
+theorem cache_key_flip :
+    (keyHasFlip = true → ∀ a b : Req, wccKey a = wccKey b → a.opFlip = b.opFlip) ∧
+    (keyHasFlip = false → ∀ (r : Req) (f : Bool), wccKey { r with opFlip := f } = wccKey r) := by
+  constructor
+  · intro h a b hk
+    have := congrArg WccKey.flip hk
+    simpa [wccKey, h] using this
+  · intro h r f
+    simp [wccKey, h]
 
 /-- The key now separates requests that differ in the IFM bit depth: for every pair of requests,
     equal weight keys imply equal bit depths … -/
@@ -375,6 +390,276 @@ theorem cache_former_witness :
     cachedRun wccKey (fun r => r.ifmBits) [] [reqInt8, reqInt16] = [(reqInt8, 8), (reqInt16, 16)] ∧
     cacheOutcomes [] [reqInt8, reqInt16] = [.miss, .miss] := by
   decide
+
+/-! ## 8. cache transparency: what holds of a fresh encoding holds of every tensor handed out -/
+
+/-- Diagnosis of a transparency failure: in a run against an initially empty memo table, an answer that is not
+    the fresh encoding of its request exhibits two requests of the run with **equal keys and different fresh
+    encodings** (contrapositive of the `←` direction of `cache_key_function`, with the witness). -/
+theorem cache_stale_means_key_collision {ρ κ β : Type} [DecidableEq κ] (key : ρ → κ) (fresh : ρ → β)
+    (reqs : List ρ) (p : ρ × β) (hp : p ∈ cachedRun key fresh [] reqs) (hne : p.2 ≠ fresh p.1) :
+    ∃ a ∈ reqs, key a = key p.1 ∧ fresh a ≠ fresh p.1 := by
+  obtain ⟨a, ha, h⟩ := cachedRun_stale key fresh reqs [] [] (by simp) p hp hne
+  exact ⟨a, by simpa using ha, h⟩
+
+/-- `CacheTransparent` (the Spec the harness applies to **every** answer of
+    `encode_weight_and_scale_tensor` during a compilation, against the answer of the same request with the
+    cache bypassed) transfers every property of the observable part of an encoding. -/
+theorem transparent_transfers (P : Observation → Prop) (w : ETensor) (s : Option ETensor) (fresh : ETensor)
+    (ht : CacheTransparent w s fresh) (h : P (observe fresh none)) : P (observe w s) := by
+  unfold CacheTransparent at ht
+  rw [ht]; exact h
+
+/-- Transparency + the function-level theorems: if the answer `(w, s)` to a request in the Spec's quantifier is
+    transparent with respect to the fresh encoding the model computes, then the handed-out weights tensor has
+    exactly one range per expected (core, slice), the weight section of every (core, slice) is the encoder's
+    answer for exactly the channels with in-slice index `≡ core`, and the scale section *of the tensor that
+    carries the scales* (the stand-alone scale tensor of a weights-only hit, otherwise the weights tensor)
+    decodes to exactly these channels' records — whatever the cache did. -/
+theorem handed_out_tensor_correct (c : Cfg) (offsets : List Nat) (out : Out)
+    (hv : ValidReq (reqOf c offsets)) (hbl : c.biases.length = c.fullDepth) (hsl : c.scales.length = c.fullDepth)
+    (hw : c.doWeights = true) (h : encodeTensor c offsets = .ok out)
+    (pk : Bool) (w : ETensor) (s : Option ETensor) (ht : CacheTransparent w s (tensorOf c out pk)) :
+    w.ranges.map ARange.key = (expected (reqOf c offsets)).map (fun e => (e.core, e.off)) ∧
+    (∀ p ∈ (expected (reqOf c offsets)).zip (observe w s).weights,
+        p.2 = ((p.1.core, p.1.off),
+               c.enc (p.1.chans (reqOf c offsets)) (coreBlockDepth c.ncores c.blockDepth p.1.core))) ∧
+    (∀ p ∈ (expected (reqOf c offsets)).zip (observe w s).scales,
+        p.2.1 = (p.1.core, p.1.off) ∧
+        (decodeRecords p.2.2).map (fun l => l.map some) = some ((p.1.chans (reqOf c offsets)).map ((expOf c)[·]?))) ∧
+    (observe w s).dbs = out.dbs := by
+  unfold CacheTransparent at ht
+  have hkeys := keys_exactly_expected c offsets out hv h
+  unfold KeysOk at hkeys
+  have hkey : ∀ p ∈ (expected (reqOf c offsets)).zip (out.ranges.map toARange),
+      p.2.key = (p.1.core, p.1.off) :=
+    zip_of_map_eq (fun e : Expect => (e.core, e.off)) ARange.key _ _ hkeys
+  refine ⟨?_, ?_, ?_, ?_⟩
+  · have : w.ranges = (tensorOf c out pk).ranges := congrArg Observation.ranges ht
+    rw [this]; exact hkeys
+  · intro p hp
+    rw [ht] at hp
+    obtain ⟨p', hp', rfl⟩ := zip_map_right_mem _ _ _ p hp
+    have hk := hkey p' hp'
+    obtain ⟨p'', hp'', rfl⟩ := zip_map_right_mem _ _ toARange p' hp'
+    obtain ⟨_, _, h3⟩ := weight_sections c offsets out hv hw h p'' hp''
+    simp only [Prod.mk.injEq]
+    exact ⟨hk, h3⟩
+  · intro p hp
+    rw [ht] at hp
+    obtain ⟨p', hp', rfl⟩ := zip_map_right_mem _ _ _ p hp
+    have hk := hkey p' hp'
+    have hrec := ((scale_count c offsets out hv hbl hsl h).2 p' hp').1
+    exact ⟨hk, hrec⟩
+  · rw [ht]; rfl
+
+/-- The weights-only-hit path of the model is transparent (request B after request A on the same weights with
+    other biases: A's tensor + a stand-alone scale tensor is indistinguishable from B's fresh encoding), and the
+    Spec is not vacuous: without the stand-alone scale tensor the same answer is rejected. -/
+theorem cache_transparent_witness :
+    transparencyWitness.map (fun (w, s, f) => (decide (CacheTransparent w s f), decide (CacheTransparent w none f),
+      transparencyFailures w none f)) = some (true, false, ["scale-sections"]) := by
+  decide +kernel
+
+/-! ## 9. what the registers of an emitted operation designate in the output file -/
+
+/-- If the constants tensor of the output file contains the encoded stream at `base = |pre|`, then reading — the way
+    the register-level Spec reads (`ConstMem.read`, used by `ScaleRegsOk`) — `10·|channels|` bytes at
+    `base + offset` of the range of any (core, slice) yields exactly the records of the channels that core owns. -/
+theorem emitted_scale_section_in_file (c : Cfg) (offsets : List Nat) (out : Out)
+    (hv : ValidReq (reqOf c offsets)) (hbl : c.biases.length = c.fullDepth) (hsl : c.scales.length = c.fullDepth)
+    (h : encodeTensor c offsets = .ok out)
+    (m : ConstMem) (pre post : List Nat) (himg : m.image.toList = pre ++ out.stream ++ post) :
+    ∀ p ∈ (expected (reqOf c offsets)).zip (artefactOf c out).ranges,
+      ((m.read ⟨m.constRegion, pre.length + p.2.offset, 10 * (p.1.chans (reqOf c offsets)).length⟩).bind decodeRecords).map
+          (fun l => l.map some) = some ((p.1.chans (reqOf c offsets)).map ((expOf c)[·]?)) := by
+  intro p hp
+  obtain ⟨hcnt, hrec⟩ := scale_count c offsets out hv hbl hsl h
+  have hc := hcnt p hp
+  obtain ⟨hr1, hr2⟩ := hrec p hp
+  unfold ScaleCountAt at hc
+  have hsize : m.image.size = pre.length + out.stream.length + post.length := by
+    rw [← Array.length_toList, himg]; simp; omega
+  unfold ConstMem.read
+  simp only [if_true]
+  rw [if_pos (by rw [hsize, ← hc]; omega)]
+  simp only [Option.bind_some]
+  rw [extract_toList, himg, bytesAt_mid _ _ _ _ _ (by rw [← hc]; exact hr2), ← hc]
+  exact hr1
+
+/-- The same for the weight section: the bytes at `base + offset + weight_offset` are the encoder's answer for the
+    channels the core owns (`WeightRegsOk` compares them with the operation's own section). -/
+theorem emitted_weight_section_in_file (c : Cfg) (offsets : List Nat) (out : Out)
+    (hv : ValidReq (reqOf c offsets)) (hw : c.doWeights = true) (h : encodeTensor c offsets = .ok out)
+    (m : ConstMem) (pre post : List Nat) (himg : m.image.toList = pre ++ out.stream ++ post) :
+    ∀ p ∈ (expected (reqOf c offsets)).zip (artefactOf c out).ranges,
+      m.read ⟨m.constRegion, pre.length + (p.2.offset + p.2.weightOffset), p.2.weightBytes⟩
+        = some (c.enc (p.1.chans (reqOf c offsets)) (coreBlockDepth c.ncores c.blockDepth p.1.core)) := by
+  intro p hp
+  obtain ⟨_, hord, hart⟩ := ranges_disjoint_ordered_aligned c offsets out h
+  have hmem : p.2 ∈ (artefactOf c out).ranges := (List.of_mem_zip hp).2
+  have hin : p.2.stop ≤ out.stream.length := by
+    have := hord.2 p.2 (by rw [← hart hv.2.2.2.2.2]; exact hmem)
+    exact this.1
+  unfold ARange.stop at hin
+  obtain ⟨p', hp', rfl⟩ := zip_map_right_mem _ _ toARange p hp
+  obtain ⟨_, _, h3⟩ := weight_sections c offsets out hv hw h p' hp'
+  have hsize : m.image.size = pre.length + out.stream.length + post.length := by
+    rw [← Array.length_toList, himg]; simp; omega
+  simp only [toARange] at hin ⊢
+  unfold ConstMem.read
+  simp only [if_true]
+  rw [if_pos (by rw [hsize]; omega)]
+  rw [extract_toList, himg, bytesAt_mid _ _ _ _ _ (by omega), h3]
+
+
+/-- A weight DMA replayed by the register-level Spec: after `dma src dst`, a non-empty range inside the
+    destination reads the corresponding bytes of what the source designated. -/
+theorem dma_then_read (m : ConstMem) (src dst r : Rng) (bs : List Nat) (hsrc : m.read src = some bs)
+    (hreg : r.region = dst.region) (hnc : r.region ≠ m.constRegion) (hpos : 0 < r.len)
+    (hin : dst.addr ≤ r.addr ∧ r.addr + r.len ≤ dst.addr + dst.len) :
+    (m.dma src dst).read r = some (bytesAt bs (r.addr - dst.addr) r.len) := by
+  have hw : (m.dma src dst).writes = ⟨dst.region, dst.addr, dst.len, some bs⟩ :: m.writes := by
+    unfold ConstMem.dma; rw [hsrc]
+  have hc : (m.dma src dst).constRegion = m.constRegion := rfl
+  have hd : (decide (dst.region = r.region ∧ dst.addr < r.addr + r.len ∧ r.addr < dst.addr + dst.len)) = true := by
+    simp only [decide_eq_true_eq]; exact ⟨hreg.symm, by omega, by omega⟩
+  unfold ConstMem.read
+  rw [hc, if_neg hnc, hw, List.find?_cons, hd]
+  simp only [if_pos hin, Option.map_some]
+
+/- Full statement (composition of the model with the register-level Spec): for every request in the Spec's quantifier,
+   every depth slice and each of the three shapes of `create_weights` (in place, through the DMA'd buffer, stand-alone
+   scale tensor), the ranges the model of `create_weights` derives — with the zero-length ranges of cores that own no
+   channel dropped, as the register decoder does — satisfy `ScaleRegsOk ∧ WeightRegsOk` on a memory that holds the
+   model's stream at the tensor's address (after the DMA of `create_dma_op` for the buffered shape).
+   Proved below (`_partial`): the **in-place** shape for slices in which **every core owns a channel**
+   (`ncores ≤ slice length`; always so on one core).  Missing: slices shorter than the core count (the decoder's
+   dropping of the empty SCALE1/WEIGHT1 range has to be aligned with `OpConsts.cores`), the buffered shape (needs the
+   link "ranges of one slice are contiguous in the stream", the same link `address_ranges_buffered_partial` lacks;
+   `dma_then_read` is the memory half) and the stand-alone scale tensor; `emitted_consts_witness` is a concrete
+   instance of the in-place and the buffered shape. -/
+
+/-- In place, every core owning a channel: the scale ranges of the model of `create_weights` satisfy `ScaleRegsOk`
+    on any constants image that holds the model's stream at a 16-byte aligned `base = |pre|`. -/
+theorem emitted_scale_regs_partial (c : Cfg) (offsets : List Nat) (out : Out)
+    (hv : ValidReq (reqOf c offsets)) (hbl : c.biases.length = c.fullDepth) (hsl : c.scales.length = c.fullDepth)
+    (h : encodeTensor c offsets = .ok out)
+    (m : ConstMem) (pre post : List Nat) (himg : m.image.toList = pre ++ out.stream ++ post) (hbase : pre.length % 16 = 0)
+    (s : Nat × Nat × Nat) (hs : s ∈ slices offsets) (hfull : c.ncores ≤ s.2.2)
+    (ws bs : List AddrRange) (hcw : createWeights c.ncores out.rawRanges pre.length none none s.2.1 = some (ws, bs)) :
+    ScaleRegsOk m (expOf c)
+      ⟨c.ncores, s.2.1, s.2.1 + s.2.2, bs.map (toRng m.constRegion), ws.map (toRng m.constRegion)⟩ := by
+  have hf := encodeTensor_facts c offsets out h
+  have hn : 0 < c.ncores := hv.1
+  obtain ⟨hpos, hle⟩ := slice_facts _ hv s hs
+  have hact : activeCores (reqOf c offsets) = c.ncores := by
+    unfold activeCores reqOf; simp only; have : s.2.1 + s.2.2 ≤ c.fullDepth := hle; omega
+  have hfind : ∀ k, k < c.ncores → ∃ r, findRange out.rawRanges k s.2.1 = some r ∧ r ∈ out.rawRanges ∧ Made c s.1 s.2.1 s.2.2 k r :=
+    fun k hk => find_made c offsets out hv h s hs k (by rw [hact]; exact hk)
+  have hmap := createWeightsLoop_direct_map out.rawRanges pre.length s.2.1 (List.range c.ncores) 0 (by
+    intro k hk
+    obtain ⟨r, hr, _⟩ := hfind k (List.mem_range.1 hk)
+    rw [hr]; rfl)
+  unfold createWeights at hcw
+  rw [hmap] at hcw
+  injection hcw with hcw
+  injection hcw with hws hbs
+  subst hws; subst hbs
+  have hcores : (⟨c.ncores, s.2.1, s.2.1 + s.2.2, ((List.range c.ncores).map (directScale out.rawRanges pre.length s.2.1)).map (toRng m.constRegion),
+      ((List.range c.ncores).map (directWeight out.rawRanges pre.length s.2.1)).map (toRng m.constRegion)⟩ : OpConsts).cores
+      = List.range c.ncores := by
+    unfold OpConsts.cores
+    simp only [Nat.add_sub_cancel_left]
+    apply List.filter_eq_self.2
+    intro k hk
+    have hk' := List.mem_range.1 hk
+    simp only [decide_eq_true_eq]
+    exact chanOf_nonempty _ _ _ _ hk' (by omega)
+  unfold ScaleRegsOk
+  rw [hcores]
+  refine ⟨by simp, ?_⟩
+  intro p hp
+  simp only [List.map_map, Nat.add_sub_cancel_left] at hp ⊢
+  have hp2 := mem_zip_map_self _ _ p hp
+  have hp1 : p.1 < c.ncores := List.mem_range.1 (List.of_mem_zip hp).1
+  obtain ⟨r, hr, hrm, hm⟩ := hfind p.1 hp1
+  have hg := hf.good.rng r hrm
+  obtain ⟨_, hcnt, hdec, hin⟩ := made_scale c _ _ _ _ r out.stream hm hg (by rw [hbl, hsl]) hn hp1 (by rw [hbl]; exact hle)
+  have hoff := hg.offAligned
+  rw [hp2]
+  simp only [Function.comp, toRng, directScale, hr]
+  refine ⟨by omega, ?_, ?_⟩
+  · rw [hcnt]; rfl
+  · rw [read_in_image m pre out.stream post himg r.offset _ (by rw [← hcnt]; exact hin), ← hcnt]
+    exact hdec
+
+
+/-- The same for the weight ranges: `WeightRegsOk` with `own[k]` = the encoder's answer for exactly the channels of the
+    slice with in-slice index `≡ k`, and core `k`'s share of the block depth. -/
+theorem emitted_weight_regs_partial (c : Cfg) (offsets : List Nat) (out : Out)
+    (hv : ValidReq (reqOf c offsets)) (hw : c.doWeights = true) (h : encodeTensor c offsets = .ok out)
+    (m : ConstMem) (pre post : List Nat) (himg : m.image.toList = pre ++ out.stream ++ post) (hbase : pre.length % 16 = 0)
+    (s : Nat × Nat × Nat) (hs : s ∈ slices offsets) (hfull : c.ncores ≤ s.2.2)
+    (ws bs : List AddrRange) (hcw : createWeights c.ncores out.rawRanges pre.length none none s.2.1 = some (ws, bs)) :
+    WeightRegsOk m
+      ⟨c.ncores, s.2.1, s.2.1 + s.2.2, bs.map (toRng m.constRegion), ws.map (toRng m.constRegion)⟩
+      ((List.range c.ncores).map fun k => c.enc (chanOf c.ncores k s.2.1 s.2.2) (coreBlockDepth c.ncores c.blockDepth k)) := by
+  have hf := encodeTensor_facts c offsets out h
+  have hn : 0 < c.ncores := hv.1
+  obtain ⟨hpos, hle⟩ := slice_facts _ hv s hs
+  have hact : activeCores (reqOf c offsets) = c.ncores := by
+    unfold activeCores reqOf; simp only; have : s.2.1 + s.2.2 ≤ c.fullDepth := hle; omega
+  have hfind : ∀ k, k < c.ncores → ∃ r, findRange out.rawRanges k s.2.1 = some r ∧ r ∈ out.rawRanges ∧ Made c s.1 s.2.1 s.2.2 k r :=
+    fun k hk => find_made c offsets out hv h s hs k (by rw [hact]; exact hk)
+  have hmap := createWeightsLoop_direct_map out.rawRanges pre.length s.2.1 (List.range c.ncores) 0 (by
+    intro k hk
+    obtain ⟨r, hr, _⟩ := hfind k (List.mem_range.1 hk)
+    rw [hr]; rfl)
+  unfold createWeights at hcw
+  rw [hmap] at hcw
+  injection hcw with hcw
+  injection hcw with hws hbs
+  subst hws; subst hbs
+  have hcores : (⟨c.ncores, s.2.1, s.2.1 + s.2.2, ((List.range c.ncores).map (directScale out.rawRanges pre.length s.2.1)).map (toRng m.constRegion),
+      ((List.range c.ncores).map (directWeight out.rawRanges pre.length s.2.1)).map (toRng m.constRegion)⟩ : OpConsts).cores
+      = List.range c.ncores := by
+    unfold OpConsts.cores
+    simp only [Nat.add_sub_cancel_left]
+    apply List.filter_eq_self.2
+    intro k hk
+    have hk' := List.mem_range.1 hk
+    simp only [decide_eq_true_eq]
+    exact chanOf_nonempty _ _ _ _ hk' (by omega)
+  unfold WeightRegsOk
+  rw [hcores]
+  refine ⟨by simp, by simp, ?_⟩
+  intro p hp
+  simp only [List.map_map] at hp
+  obtain ⟨k, hk, rfl⟩ := mem_zip_map_map _ _ _ p hp
+  have hk' : k < c.ncores := List.mem_range.1 hk
+  obtain ⟨r, hr, hrm, hm⟩ := hfind k hk'
+  have hg := hf.good.rng r hrm
+  obtain ⟨_, hbytes⟩ := made_weights c _ _ _ _ r out.stream hm hg hw hn hk' hle
+  rw [cbdOf_eq_coreBlockDepth c k hn hk'] at hbytes
+  have hoff := hg.offAligned
+  have hwo := hg.woAligned
+  have hwb := hg.wbAligned
+  have hstop : r.stop ≤ out.stream.length := hg.inside
+  unfold Range.stop at hstop
+  have hlen : (c.enc (chanOf c.ncores k s.2.1 s.2.2) (coreBlockDepth c.ncores c.blockDepth k)).length = r.weightBytes := by
+    rw [← hbytes]; unfold bytesAt; simp; omega
+  simp only [Function.comp, toRng, directWeight, hr, roundUp16_of_mod _ hwb]
+  refine ⟨by omega, hlen.symm, ?_⟩
+  rw [Nat.add_assoc, read_in_image m pre out.stream post himg (r.offset + r.weightOffset) _ (by omega), hbytes]
+
+
+/-- `emitted_consts_witness` (`_witness`: a concrete instance, not the general composition theorem): the model's
+    tensor, placed in a constants image and addressed by the model of `create_weights` / `create_dma_op`, satisfies
+    `ScaleRegsOk ∧ WeightRegsOk` read in place and through the DMA'd buffer; a scale base 16 bytes off (the shape of
+    seeded change seed4/C08/m2) and a buffer no DMA has filled are rejected. -/
+theorem emitted_consts_witness : emittedWitness = some (true, true, false, false) := by
+  decide +kernel
 
 /-! ## Non-vacuity -/
 
